@@ -143,8 +143,6 @@ def _work_scc(job):
                         dnt += 1
                 for clause, detail in check_scc_case(case, reach):
                     fails.append({"case": case, "clause": clause, "detail": detail})
-        if inners == ("asc", "desc"):
-            pass
     return cases, dnt, fails
 
 
